@@ -4,13 +4,6 @@ From HIDI Require Import Base.AList Model.Device Proofs.DeviceBasics Proofs.Recv
 Import ListNotations.
 Open Scope N_scope.
 
-Definition wf_msgb (m : msg) : bool :=
-  match m with
-  | [st; d1; d2] =>
-      (mem N.eqb (N.land st 240) [128; 144; 176; 224]) && (128 <=? st) && (st <? 256) && (d1 <? 128) && (d2 <? 128)
-  | _ => false
-  end.
-
 (* the statement of the property: Note Off / Note On / Control Change / Pitch Bend status with a channel nibble,
    two data bytes in 0..127 *)
 Definition wf_msg (m : msg) : Prop :=
